@@ -2,10 +2,15 @@
 import ast
 
 from ..model import AnalysisError, dotted, unparse
-from ..util import U, enum_paths, walk_no_nested, is_yield_call
+from ..util import sym_env, sym_resolve, POS, FACTS, FACTS_I, U, enum_paths, walk_no_nested, is_yield_call
 from ..paths import call_attr, call_name
 
 T = 'scales/timer_queue.py'
+
+
+def is_peek(v):
+  """the read of the queue head: self._PeekNext() or self._queue[0][:3]"""
+  return (isinstance(v, ast.Call) and call_attr(v) == '_PeekNext') or U(v).replace(' ', '') == 'self._queue[0][:3]'
 
 
 def strip_num(e):
@@ -59,16 +64,30 @@ def r1(ctx, sch):
   d = sch.params[1]
   why = ('an action must run once the clock reaches T rounded UP to the resolution and never before T: floor/round run early, '
          '"(d // r + 1) * r" pushes exact multiples a whole tick late and reorders them')
-  ifs = [n for n in walk_no_nested(sch.node) if isinstance(n, ast.If) and U(n.test) == 'self._resolution']
-  asg = [st for st in walk_no_nested(sch.node) if isinstance(st, ast.Assign) and U(st.targets[0]) == d]
-  if not asg:
-    ctx.ob('C10.R1', sch, 'deadline quantised to the resolution', False, 'no quantisation of the deadline in Schedule', why)
-    return
-  for st in asg:
-    ok = is_ceil_multiple(st.value, d, 'self._resolution')
-    ctx.ob('C10.R1', sch, 'deadline = ceil(deadline / resolution) * resolution', ok, 'deadline is rebound to %s' % U(st.value), why)
-  ok = len(ifs) == 1 and all(any(st is x for x in ast.walk(ifs[0])) for st in asg)
-  ctx.ob('C10.R1', sch, 'quantisation guarded by a non-zero resolution', ok, 'guard changed', 'resolution 0 means no quantisation (division by zero otherwise)', nontrivial=False)
+  act = sch.params[2]
+  n_q = 0
+  for ev, ex in enum_paths(ctx, sch):
+    if ex[0] != 'ret':
+      continue
+    # the value stored as the entry's deadline, resolved through the assignments on this path
+    ent = [(i, e.node) for i, e in enumerate(ev) if e.kind == 'stmt' and isinstance(e.node, ast.Assign) and isinstance(e.node.value, ast.List)
+           and any(U(x) == act for x in e.node.value.elts)]
+    if not ent:
+      continue
+    i, st = ent[0]
+    env = sym_env(ev, i)
+    val = sym_resolve(st.value.elts[0], env)
+    fs = FACTS(ev[:i])
+    if ('self._resolution', True) in fs:
+      n_q += 1
+      ok = is_ceil_multiple(val, d, 'self._resolution')
+      ctx.ob('C10.R1', sch, 'deadline = ceil(deadline / resolution) * resolution', ok, 'the entry deadline is %s' % U(val), why)
+    elif ('self._resolution', False) in fs:
+      ctx.ob('C10.R1', sch, 'resolution 0: the deadline is used unchanged', U(val) == d, 'the entry deadline is %s' % U(val), 'resolution 0 means no quantisation', nontrivial=False)
+    else:
+      ctx.ob('C10.R1', sch, 'quantisation guarded by a non-zero resolution', is_ceil_multiple(val, d, 'self._resolution') is False and U(val) == d or False,
+             'entry deadline %s on a path that does not test the resolution' % U(val), 'resolution 0 means no quantisation (division by zero otherwise)')
+  ctx.floor('C10.R1', 'quantising paths of Schedule', n_q, 1)
 
 
 def r2(ctx, tq, sch, wk):
@@ -127,13 +146,14 @@ def r2(ctx, tq, sch, wk):
   ctx.ob('C10.R2', cn, 'cancel does not touch the queue or the worker state', not others, 'cancel also uses %s' % others,
          'the worker has already peeked the head: removing entries behind its back makes it pop a different entry than the one it timed (runs early / IndexError)')
   # readers
-  pk = prog.func(T, 'TimerQueue._PeekNext')
-  rp = [n for n in walk_no_nested(pk.node) if isinstance(n, ast.Return)]
-  okp = len(rp) == 1 and U(rp[0].value).replace(' ', '') == 'self._queue[0][:3]'
-  ctx.ob('C10.R2', pk, 'peek reads the first three fields of the head', okp, 'peek returns %s' % [U(r.value) for r in rp], why)
-  un = [st for st in ast.walk(wk.node) if isinstance(st, ast.Assign) and isinstance(st.targets[0], ast.Tuple) and isinstance(st.value, ast.Call)]
-  peek_un = [st for st in un if call_attr(st.value) == '_PeekNext']
-  pop_un = [st for st in un if call_name(st.value) in ('heapq.heappop', 'heappop')]
+  pk = prog.try_func(T, 'TimerQueue._PeekNext')
+  if pk is not None:
+    rp = [n for n in walk_no_nested(pk.node) if isinstance(n, ast.Return)]
+    okp = len(rp) == 1 and U(rp[0].value).replace(' ', '') == 'self._queue[0][:3]'
+    ctx.ob('C10.R2', pk, 'peek reads the first three fields of the head', okp, 'peek returns %s' % [U(r.value) for r in rp], why)
+  un = [st for st in ast.walk(wk.node) if isinstance(st, ast.Assign) and isinstance(st.targets[0], ast.Tuple) and isinstance(st.value, (ast.Call, ast.Subscript))]
+  peek_un = [st for st in un if is_peek(st.value)]
+  pop_un = [st for st in un if isinstance(st.value, ast.Call) and call_name(st.value) in ('heapq.heappop', 'heappop')]
   okr = len(peek_un) == 1 and len(pop_un) == 1
   names = {}
   if okr:
@@ -152,8 +172,8 @@ def r3(ctx, sch):
       continue
     push = [i for i, e in enumerate(ev) if e.kind == 'call' and call_name(e.node) in ('heapq.heappush', 'heappush')]
     sets = [i for i, e in enumerate(ev) if e.kind == 'call' and U(e.node.func) == 'self._event.set']
-    fs = [(U(e.node).replace(' ', ''), e.info) for e in ev if e.kind == 'cond']
-    head = [c for c, t in fs if c.startswith('self._queue[0][0]')]
+    fs = FACTS(ev)
+    head = [c for c, t in POS(fs) if c.startswith('self._queue[0][0]')]
     if not push:
       continue
     if sets:
@@ -161,8 +181,8 @@ def r3(ctx, sch):
       ctx.ob('C10.R3', sch, 'push precedes set with no yield between', ok, 'order push=%s set=%s' % (push, sets), why)
     else:
       # no wake on this path: allowed only when the new entry is not the head
-      ok = any(c.replace(' ', '') in ('self._queue[0][0]==%s' % sch.params[1],) and not t for c, t in fs) or any(
-        c.startswith('self._queue[0]is') and not t for c, t in fs)
+      ok = any(c.replace(' ', '') in ('self._queue[0][0]==%s' % sch.params[1],) and not t for c, t in POS(fs)) or any(
+        c.startswith('self._queue[0]is') and not t for c, t in POS(fs))
       ctx.ob('C10.R3', sch, 'no wake only when the new entry is not the head', ok, 'path without event.set has facts %s' % fs,
              why + '; without the wake the worker sleeps until the previous head and the new action runs late')
 
@@ -205,7 +225,7 @@ def r4(ctx, tq, sch, wk):
   paths = enum_paths(ctx, wk, body=loops[0].body)
   n_run = n_cancel = 0
   for ev, ex in paths:
-    fs = [(U(e.node).replace(' ', ''), e.info) for e in ev if e.kind == 'cond']
+    fs = FACTS(ev)
     idx = dict((k, [i for i, e in enumerate(ev) if e.kind == 'call' and pred(e.node)]) for k, pred in {
       'peek': lambda c: call_attr(c) == '_PeekNext',
       'pop': lambda c: (call_name(c) or '').split('.')[-1] == 'heappop',
@@ -215,6 +235,9 @@ def r4(ctx, tq, sch, wk):
       'twait': lambda c: U(c.func) == 'self._event.wait' and bool(c.args),
       'now': lambda c: U(c.func) == 'self._time_source',
     }.items())
+    # the head may be read through _PeekNext() or directly (self._queue[0][:3])
+    peek_stmts = [(i, e.node) for i, e in enumerate(ev) if e.kind == 'stmt' and isinstance(e.node, ast.Assign) and is_peek(e.node.value)]
+    idx['peek'] = sorted(set(idx['peek']) | set(i for i, _ in peek_stmts))
     if len(idx['pop']) > 1 or len(idx['spawn']) > 1:
       ctx.ob('C10.R4', wk, 'at most one pop and one spawn per iteration', False, 'path pops %d, spawns %d' % (len(idx['pop']), len(idx['spawn'])), why)
     # every pop is preceded by a peek in the same iteration
@@ -231,34 +254,41 @@ def r4(ctx, tq, sch, wk):
         at2, seq2, canc2, act2 = [U(x) for x in pop_st[0].targets[0].elts]
         ok = [U(a) for a in sp.args] == [act2] and idx['pop'][0] < idx['spawn'][0]
         # cancelled flag of the *popped* entry tested after the pop
-        after = [(U(e.node).replace(' ', ''), e.info) for e in ev[idx['pop'][0]:idx['spawn'][0]] if e.kind == 'cond']
+        after = FACTS(ev[idx['pop'][0]:idx['spawn'][0]])
         ok = ok and ((canc2, False) in after)
       ctx.ob('C10.R4', wk, 'runs the popped action once, only if its cancelled flag is clear', ok, 'spawn is %s' % U(sp), why)
-      # never early
-      peek_st = [e.node for e in ev if e.kind == 'stmt' and isinstance(e.node, ast.Assign) and isinstance(e.node.value, ast.Call) and call_attr(e.node.value) == '_PeekNext']
-      at1 = U(peek_st[-1].targets[0].elts[0]) if peek_st else None
-      tw = [e.node for e in ev if e.kind == 'stmt' and isinstance(e.node, ast.Assign) and U(e.node.targets[0]) == 'to_wait']
-      ok_tw = bool(tw) and U(tw[-1].value).replace(' ', '') == '%s-self._time_source()' % at1
-      ctx.ob('C10.R4', wk, 'to_wait = peeked deadline - now', ok_tw, 'to_wait is %s' % (U(tw[-1].value) if tw else None), why)
-      expired = ('to_wait>0', False) in fs or ('to_wait<=0', True) in fs
+      # never early: to_wait = <peeked deadline> - now, resolved through the assignments on the path
+      peek_st = [n for _, n in peek_stmts]
+      at1 = U(peek_st[-1].targets[0].elts[0]) if peek_st and isinstance(peek_st[-1].targets[0], ast.Tuple) else None
+      canc1 = U(peek_st[-1].targets[0].elts[2]) if peek_st and isinstance(peek_st[-1].targets[0], ast.Tuple) and len(peek_st[-1].targets[0].elts) > 2 else '?'
+      gate = [(c, t, i) for c, t, i in FACTS_I(ev) if c.endswith('>0') and i < idx['pop'][0]] if idx['pop'] else []
+      env = sym_env(ev, idx['pop'][0] if idx['pop'] else None)
+      tw_expr = None
+      for e in ev:
+        if e.kind == 'cond':
+          sub = sym_resolve(e.node, sym_env(ev, ev.index(e)))
+          t_ = U(sub).replace(' ', '')
+          if t_ in ('%s-self._time_source()>0' % at1, '0<%s-self._time_source()' % at1, '%s-self._time_source()<=0' % at1, '%s>self._time_source()' % at1):
+            tw_expr = t_
+      ctx.ob('C10.R4', wk, 'the wait is decided on: peeked deadline - now > 0', tw_expr is not None, 'no test of <peeked deadline> - self._time_source() against 0 on the run path', why)
+      expired = ('%s-self._time_source()>0' % at1, False) in FACTS(ev) or ('to_wait>0', False) in fs
       timed_out = False
+      waited_on = None
       if idx['twait']:
         w = ev[idx['twait'][-1]].node
-        wt = [e.node for e in ev if e.kind == 'stmt' and isinstance(e.node, ast.Assign) and e.node.value is not None
-              and any(x is w for x in ast.walk(e.node.value))]
-        if wt and U(w.args[0]) == 'to_wait':
-          v = wt[0].value
-          flag = U(wt[0].targets[0])
-          neg = isinstance(v, ast.UnaryOp) and isinstance(v.op, ast.Not)
-          timed_out = ((flag, True) in fs) if neg else ((flag, False) in fs)
+        warg = sym_resolve(w.args[0], sym_env(ev, idx['twait'][-1]))
+        waited_on = U(warg).replace(' ', '')
+        timed_out = (U(w).replace(' ', ''), False) in fs or (U(sym_resolve(w, sym_env(ev, idx['twait'][-1]))).replace(' ', ''), False) in fs
+      ok_arg = (waited_on is None) or waited_on == '%s-self._time_source()' % at1
+      ctx.ob('C10.R4', wk, 'the worker waits exactly for the remaining time of the peeked head', ok_arg, 'waits for %s' % waited_on, why)
       ctx.ob('C10.R4', wk, 'pop-and-run only when the head is due or its wait timed out', (expired and not idx['twait']) or timed_out,
-             'run path has facts %s' % fs, why)
-      ctx.ob('C10.R4', wk, 'peeked head was not cancelled', ((U(peek_st[-1].targets[0].elts[2]) if peek_st else '?'), False) in fs or ('cancelled', False) in fs,
+             'run path: expired=%s, waits=%s, wait timed out=%s' % (expired, bool(idx['twait']), timed_out), why)
+      ctx.ob('C10.R4', wk, 'peeked head was not cancelled', (canc1, False) in fs,
              'run path does not test the peeked cancelled flag', why, nontrivial=False)
     elif idx['pop']:
       # pop without running: the cancelled head
       n_cancel += 1
-      ok = ('cancelled', True) in fs or any(c.endswith('cancelled') and t for c, t in fs)
+      ok = ('cancelled', True) in fs or any(c.endswith('cancelled') and t for c, t in POS(fs))
       ctx.ob('C10.R4', wk, 'an entry is dropped without running only if it is cancelled', ok, 'drop path has facts %s' % fs, why + '; dropping a live entry loses its action')
     elif idx['twait'] and not idx['pop']:
       # woken by a newer item: nothing popped, loop again
